@@ -19,7 +19,7 @@ Produce TWO different changes (patches) to the library's non-test source under {
   1. breaks this property (for some input / history / schedule),
   2. still compiles and still passes the complete existing test suite (`go test ./...`, unedited),
   3. is realistic: the kind of mistake or "harmless-looking simplification/optimisation" a maintainer could make — a changed condition, an off-by-one, a forgotten update of an index or cache, a stale pointer/slice alias, a wrong order of two statements, a missed case for a rarely used feature; not a blatant sabotage, not a change that breaks every use,
-  4. needs something specific to manifest (a particular combination of operations, sizes, capacities, component counts, relation targets, registered filters/observers, build tags, …) — say exactly what,
+  4. needs something specific to manifest — NOT something ordinary use would expose at once: a particular interleaving of goroutines or of nested calls (operations issued from inside observer/batch callbacks or while a query is open), a panic/recover at a particular point followed by further use of the world, a multi-step sequence of operations (e.g. only after a table was freed and recycled, after Reset, after Shrink, after the 17th table or 65th component, after an ID was recycled), an unusual input (empty lists, duplicate IDs, zero-size types, zero entity, capacities 1 or 2), or two cooperating sites that each look fine alone — say exactly what,
   5. the two changes should differ in kind and touch different mechanisms. Prefer hand-written files; a change to a generated `*_gen.go` file is allowed only for one of the two.
 
 For each change n = 1, 2 write into {out}/ (create it):
